@@ -450,7 +450,7 @@ func TestVerif_C06_GrpcSessions(t *testing.T) {
 	const P = c06P
 	r := vk.Start(t, "c06_grpc_sessions", "exploration", P)
 	defer r.Finish()
-	r.Rule(P, "every interleaving (at the granularity of the Read/Write/Close calls the helpers issue on the codec object) of 2 (thorough: also 3) overlapping sessions drawn from {decompress() via registered gzip, compress() via registered gzip, legacy gzipDecompressor, legacy gzipCompressor}, every unordered combination of kinds, message sizes 300 bytes (and 70000 bytes for the decompress pairs), from empty pools and after one completed session per kind; non-trivial = a schedule that switches session at least twice")
+	r.Rule(P, "every interleaving (at the granularity of the Read/Write/Close calls the helpers issue on the codec object) of 2 overlapping sessions drawn from {decompress() via registered gzip, compress() via registered gzip, legacy gzipDecompressor, legacy gzipCompressor}, every unordered pair of kinds, 300-byte messages (70000 bytes for decompress pairs; thorough: 9 triples of the first three kinds and more large pairs), from empty pools and after one completed session per kind; non-trivial = a schedule that switches session at least twice")
 	runtime.GOMAXPROCS(1)
 	defer debug.SetGCPercent(debug.SetGCPercent(-1))
 	if r.ReplayFile() != "" {
@@ -477,17 +477,18 @@ func TestVerif_C06_GrpcSessions(t *testing.T) {
 		for a := 0; a < len(kinds); a++ {
 			for b := a; b < len(kinds); b++ {
 				specs = append(specs, c06sSpec{[]string{kinds[a], kinds[b]}, []int{300, 300}, warm})
-				if r.Thorough() {
-					for c := b; c < len(kinds); c++ {
-						specs = append(specs, c06sSpec{[]string{kinds[a], kinds[b], kinds[c]}, []int{300, 300, 300}, warm})
-					}
-				}
 			}
 		}
 		specs = append(specs, c06sSpec{[]string{"v1d", "v1d"}, []int{70000, 70000}, warm})
 		specs = append(specs, c06sSpec{[]string{"v1d", "v1d"}, []int{70000, 300}, warm})
 		if r.Thorough() {
-			specs = append(specs, c06sSpec{[]string{"v0d", "v0d"}, []int{70000, 70000}, warm})
+			// three overlapping sessions (the legacy compressor issues 5 destination writes per
+			// message, which makes its triples too many: it takes part in pairs only)
+			for _, tr := range [][]string{{"v1d", "v1d", "v1d"}, {"v1d", "v1d", "v1c"}, {"v1d", "v1c", "v1c"}, {"v1c", "v1c", "v1c"},
+				{"v1d", "v1d", "v0d"}, {"v1d", "v0d", "v0d"}, {"v0d", "v0d", "v0d"}, {"v1d", "v1c", "v0d"}, {"v1c", "v1c", "v0d"}} {
+				specs = append(specs, c06sSpec{tr, []int{300, 300, 300}, warm})
+			}
+			specs = append(specs, c06sSpec{[]string{"v0d", "v0d"}, []int{12000, 12000}, warm})
 			specs = append(specs, c06sSpec{[]string{"v1c", "v1c"}, []int{70000, 70000}, warm})
 			specs = append(specs, c06sSpec{[]string{"v1d", "v1c"}, []int{70000, 70000}, warm})
 		}
@@ -501,6 +502,10 @@ func TestVerif_C06_GrpcSessions(t *testing.T) {
 		perSpec[sp.name()] = stats["schedules"]
 		for k, v := range stats {
 			total[k] += v
+		}
+		if r.OverBudget() {
+			r.Cap(c06P, "soft time budget used up")
+			break
 		}
 		if sp.warm && (sp.kinds[0] == "v1d" || sp.kinds[0] == "v1c") && stats["schedules_with_pool_reuse"] == 0 {
 			r.EngineError("spec %s is vacuous: no schedule ever got a recycled object back from the registered compressor's pool", sp.name())
